@@ -9,6 +9,15 @@ SPEC  : {"k":"num","v":"3"} | {"k":"rat","p":1,"q":2} | {"k":"const","name":s} |
       | {"k":"fn","name":"sin|cos|exp|log|Abs|tan|atan2|Max","args":[..]}
       | {"k":"tuple","items":[..]} | {"k":"seq","py":"list|tuple","items":[..]}
       | {"k":"matrix","imm":bool,"rows":[[..]..]}
+      | {"k":"side","plus":bool,"e":SPEC}                       Minus/PlusInterfaceOperator(e)
+      | {"k":"geo","g":"map|wvol|det|detJ","map":MREF}          Mapping / SymbolicWeightedVolume / SymbolicDeterminant
+      | {"k":"ibase","name":s,"normal":bool} | {"k":"idx","name":s} | {"k":"imag"}
+      | {"k":"pidx","base":s,"idx":s,"how":"int|idx|normal"}  plain sympy Indexed A[0], A[i], NormalVector(n)[0]
+      | {"k":"pb","name":s,"vector":bool,"kind":"h1|l2|hcurl|hdiv","map":s}   PullBack of a function on a mapped domain
+      | {"k":"opaque","what":"bool|derivative|domain|str|none"} objects SymbolicExpr has no arm for
+      | {"k":"pynum","v":2|2.5}                                  bare python number (inside a python list / tuple)
+ATOM  : {"t":"s","name":s} | {"t":"c","name":s,"i":n} | {"t":"side","plus":bool,"a":ATOM} | {"t":"m","map":MREF,"i":n}
+MREF  : {"name":s,"side":null|"minus"|"plus"} | {"iface":[s,s]}
 output: per case a dict (see run_case) in which every expression is a TREE in the same grammar, read back from
         the real sympy object with sympy's own argument order (fail-closed on an unknown node type).
 """
@@ -41,10 +50,46 @@ class Ctx:
         self.funcs = {}
         for f in case["funcs"]:
             self.funcs[(f["name"], bool(f["vector"]))] = element_of(self.W if f["vector"] else self.V, name=f["name"])
+        self.maps = {}
+        self.mapped = {}
+
+    def mapping(self, name):
+        from sympde.topology import Mapping
+        if name not in self.maps:
+            self.maps[name] = Mapping(name, dim=self.dim)
+        return self.maps[name]
+
+    def mref(self, r):
+        from sympde.topology.mapping import InterfaceMapping
+        if "iface" in r:
+            return InterfaceMapping(self.mapping(r["iface"][0]), self.mapping(r["iface"][1]))
+        m = self.mapping(r["name"])
+        if r.get("side"):
+            # the copies an InterfaceMapping keeps of its two sides
+            im = InterfaceMapping(m, m)
+            return im.minus if r["side"] == "minus" else im.plus
+        return m
+
+    def pullback(self, s):
+        """PullBack(f) for a function f of a space over the mapped domain M(Line|Square|Cube)"""
+        from sympde.topology import Line, Square, Cube, ScalarFunctionSpace, VectorFunctionSpace, element_of
+        from sympde.topology.mapping import PullBack
+        key = (s["map"], s["kind"], bool(s["vector"]))
+        if key not in self.mapped:
+            ref = {1: Line, 2: Square, 3: Cube}[self.dim]("R_" + s["map"])
+            dom = self.mapping(s["map"])(ref)
+            cls = VectorFunctionSpace if s["vector"] else ScalarFunctionSpace
+            self.mapped[key] = cls("X_%s_%s" % (s["map"], s["kind"]), dom, kind=s["kind"])
+        return PullBack(element_of(self.mapped[key], name=s["name"]))
 
     def atom(self, a):
+        from sympde.calculus.core import MinusInterfaceOperator, PlusInterfaceOperator
         if a["t"] == "s":
             return self.funcs[(a["name"], False)]
+        if a["t"] == "side":
+            return (PlusInterfaceOperator if a["plus"] else MinusInterfaceOperator)(self.atom(a["a"]))
+        if a["t"] == "m":
+            return self.mref(a["map"])[a["i"]]
         return self.funcs[(a["name"], True)][a["i"]]
 
     def build(self, s):
@@ -84,12 +129,75 @@ class Ctx:
         if k == "matrix":
             rows = [[self.build(a) for a in r] for r in s["rows"]]
             return sp.ImmutableDenseMatrix(rows) if s.get("imm") else sp.Matrix(rows)
+        if k == "side":
+            from sympde.calculus.core import MinusInterfaceOperator, PlusInterfaceOperator
+            return (PlusInterfaceOperator if s["plus"] else MinusInterfaceOperator)(self.build(s["e"]))
+        if k == "geo":
+            from sympde.topology.mapping import SymbolicWeightedVolume
+            from sympde.calculus.matrices import SymbolicDeterminant
+            m = self.mref(s["map"])
+            if s["g"] == "map":
+                return m
+            if s["g"] == "wvol":
+                return SymbolicWeightedVolume(m)
+            if s["g"] == "det":
+                return SymbolicDeterminant(m)
+            if s["g"] == "detJ":
+                return m.jacobian.det()
+            raise ValueError("bad geo %r" % (s["g"],))
+        if k == "ibase":
+            from sympde.topology import NormalVector
+            return NormalVector(s["name"]) if s.get("normal") else sp.IndexedBase(s["name"])
+        if k == "idx":
+            return sp.Idx(s["name"])
+        if k == "imag":
+            return sp.I
+        if k == "pidx":
+            from sympde.topology import NormalVector
+            if s["how"] == "normal":
+                return NormalVector(s["base"])[int(s["idx"])]
+            if s["how"] == "int":
+                return sp.IndexedBase(s["base"])[int(s["idx"])]
+            return sp.IndexedBase(s["base"])[sp.Idx(s["idx"])]
+        if k == "pb":
+            return self.pullback(s)
+        if k == "opaque":
+            w = s["what"]
+            if w == "bool":
+                return sp.true
+            if w == "derivative":
+                t = sp.Symbol("t")
+                return sp.Derivative(sp.Function("g")(t), t)
+            if w == "domain":
+                return self.domain
+            if w == "str":
+                return "abc"
+            if w == "none":
+                return None
+            raise ValueError("bad opaque %r" % (w,))
+        if k == "pynum":
+            return s["v"]
         raise ValueError("bad spec node %r" % (k,))
 
 
 # ------------------------------------------------------------------ reading real objects back
+def mref_tree(m):
+    from sympde.topology.mapping import Mapping, InterfaceMapping, MultiPatchMapping
+    if isinstance(m, MultiPatchMapping) or not isinstance(m, Mapping):
+        raise Unsupported("mapping:" + type(m).__name__)
+    if isinstance(m, InterfaceMapping):
+        return {"iface": [str(m.minus.name), str(m.plus.name)]}
+    if type(m) is not Mapping:
+        raise Unsupported("mapping:" + type(m).__name__)
+    return {"name": str(m.name), "side": "plus" if m.is_plus else "minus" if m.is_minus else None}
+
+
 def atom_tree(e):
+    """what a derivative chain may be applied to (None: not such an atom)"""
+    import sympy as sp
     from sympde.topology.space import ScalarFunction, IndexedVectorFunction, VectorFunction
+    from sympde.topology.mapping import Mapping
+    from sympde.calculus.core import MinusInterfaceOperator, PlusInterfaceOperator
     if isinstance(e, ScalarFunction):
         return {"t": "s", "name": str(e.name)}
     if isinstance(e, IndexedVectorFunction) and isinstance(e.base, VectorFunction) and len(e.indices) == 1:
@@ -97,6 +205,18 @@ def atom_tree(e):
         if not (isinstance(i, int) or getattr(i, "is_Integer", False)) or int(i) < 0:
             raise Unsupported("component-index:%r" % (i,))
         return {"t": "c", "name": str(e.base.name), "i": int(i)}
+    if isinstance(e, (MinusInterfaceOperator, PlusInterfaceOperator)) and len(e.args) == 1:
+        a = atom_tree(e.args[0])
+        if a is None:
+            return None
+        return {"t": "side", "plus": isinstance(e, PlusInterfaceOperator), "a": a}
+    if type(e) is sp.Indexed and isinstance(e.base, Mapping):
+        if len(e.indices) != 1:
+            raise Unsupported("mapping-component-indices")
+        i = e.indices[0]
+        if not (isinstance(i, int) or getattr(i, "is_Integer", False)) or int(i) < 0:
+            raise Unsupported("mapping-component-index:%r" % (i,))
+        return {"t": "m", "map": mref_tree(e.base), "i": int(i)}
     return None
 
 
@@ -106,6 +226,12 @@ def tree(e):
     from sympde.core import Constant
     from sympde.topology.space import ScalarFunction, IndexedVectorFunction, VectorFunction
     from sympde.topology.derivatives import DifferentialOperator
+    from sympde.topology.mapping import Mapping, SymbolicWeightedVolume, PullBack, JacobianSymbol
+    from sympde.topology.basic import BasicDomain
+    from sympde.calculus.matrices import SymbolicDeterminant
+    from sympde.calculus.core import MinusInterfaceOperator, PlusInterfaceOperator
+    if e is None or isinstance(e, str):
+        return {"k": "opaque", "basic": False}
     if isinstance(e, list):
         return {"k": "seq", "py": "list", "items": [tree(a) for a in e]}
     if isinstance(e, tuple):
@@ -134,10 +260,53 @@ def tree(e):
         return {"k": "chain", "ops": [], "atom": a}
     if isinstance(e, VectorFunction):
         return {"k": "vec", "name": str(e.name)}
+    if isinstance(e, (MinusInterfaceOperator, PlusInterfaceOperator)):
+        if len(e.args) != 1:
+            raise Unsupported("interface-operator-arity")
+        return {"k": "side", "plus": isinstance(e, PlusInterfaceOperator), "e": tree(e.args[0])}
+    if isinstance(e, Mapping):
+        return {"k": "geo", "g": "map", "map": mref_tree(e)}
+    if isinstance(e, SymbolicWeightedVolume):
+        if len(e.args) != 1:
+            raise Unsupported("wvol-arity")
+        return {"k": "geo", "g": "wvol", "map": mref_tree(e.args[0])}
+    if isinstance(e, SymbolicDeterminant):
+        a = e.args[0]
+        if isinstance(a, Mapping):
+            return {"k": "geo", "g": "det", "map": mref_tree(a)}
+        if type(a) is JacobianSymbol and a.axis is None:
+            return {"k": "geo", "g": "detJ", "map": mref_tree(a.mapping)}
+        raise Unsupported("determinant-of:" + type(a).__name__)
+    if isinstance(e, PullBack):
+        f = e.args[0]
+        if isinstance(f, ScalarFunction):
+            fv = False
+        elif isinstance(f, VectorFunction):
+            fv = True
+        else:
+            raise Unsupported("pullback-of:" + type(f).__name__)
+        try:
+            inner = tree(e.expr)
+        except Unsupported:
+            # matrix-symbolic expressions (Hcurl / Hdiv): SymbolicExpr has no arm for their factors
+            inner = {"k": "opaque", "basic": True}
+        return {"k": "pb", "name": str(f.name), "vector": fv, "e": inner}
+    if isinstance(e, sp.IndexedBase):
+        return {"k": "ibase", "name": str(e.name)}
+    if isinstance(e, sp.Idx):
+        return {"k": "idx", "name": str(e.name)}
+    if type(e) is sp.Indexed:
+        if len(e.indices) != 1 or isinstance(e.base, (VectorFunction, Mapping)):
+            raise Unsupported("indexed")
+        return {"k": "pidx", "base": str(e.base.name), "idx": str(e.indices[0])}
+    if e is sp.I:
+        return {"k": "imag"}
     if isinstance(e, (sp.Integer, sp.Rational, sp.Float)) or isinstance(e, (int, float)):
         return {"k": "num", "v": str(e)}
-    if isinstance(e, sp.NumberSymbol) or e is sp.I:
+    if isinstance(e, sp.NumberSymbol):
         return {"k": "num", "v": str(e)}
+    if isinstance(e, (sp.logic.boolalg.BooleanAtom, sp.Derivative, BasicDomain)):
+        return {"k": "opaque", "basic": True}
     if isinstance(e, Constant):
         return {"k": "sym", "name": str(e.name), "const": True}
     if type(e) is sp.Symbol:
@@ -154,49 +323,69 @@ def tree(e):
 
 
 # ------------------------------------------------------------------ independent walk of the real tree (oracle side)
-def walk_chains(e, out):
-    """Every maximal chain of derivative operators over a function atom occurring anywhere in `e`
-    (also inside exponents, function arguments, matrices, sequences).  Own traversal over .args."""
+def walk_chains(e, out, others=None):
+    """Every maximal chain of derivative operators over an atom (function, component, one of these restricted
+    to a side of an interface, mapping component) occurring anywhere in `e` (also inside exponents, function
+    arguments, matrices, sequences, interface operators).  Own traversal over .args.  `others` collects the
+    remaining objects that SymbolicExpr names or passes through as a Symbol: geometry atoms, plain Indexed,
+    plain Symbols."""
     import sympy as sp
-    from sympde.topology.space import ScalarFunction, IndexedVectorFunction
+    from sympde.core import Constant
     from sympde.topology.derivatives import DifferentialOperator
+    from sympde.topology.mapping import Mapping, SymbolicWeightedVolume, PullBack
+    from sympde.calculus.matrices import SymbolicDeterminant
     if isinstance(e, (list, tuple)):
         for a in e:
-            walk_chains(a, out)
+            walk_chains(a, out, others)
         return
     if isinstance(e, sp.MatrixBase):
         for i in range(e.shape[0]):
             for j in range(e.shape[1]):
-                walk_chains(e[i, j], out)
+                walk_chains(e[i, j], out, others)
         return
     if isinstance(e, DifferentialOperator):
         ops, cur = [], e
         while isinstance(cur, DifferentialOperator):
             ops.append(type(cur).__name__)
             cur = cur.args[0]
-        if isinstance(cur, ScalarFunction):
-            out.append(({"ops": ops, "atom": {"t": "s", "name": str(cur.name)}}, e))
+        a = atom_tree(cur)
+        if a is not None:
+            out.append(({"ops": ops, "atom": a}, e))
             return
-        if isinstance(cur, IndexedVectorFunction):
-            out.append(({"ops": ops, "atom": {"t": "c", "name": str(cur.base.name), "i": int(cur.indices[0])}}, e))
-            return
-        walk_chains(cur, out)
+        walk_chains(cur, out, others)
         return
-    if isinstance(e, ScalarFunction):
-        out.append(({"ops": [], "atom": {"t": "s", "name": str(e.name)}}, e))
+    if not isinstance(e, sp.Basic):
         return
-    if isinstance(e, IndexedVectorFunction):
-        out.append(({"ops": [], "atom": {"t": "c", "name": str(e.base.name), "i": int(e.indices[0])}}, e))
+    a = atom_tree(e)
+    if a is not None:
+        out.append(({"ops": [], "atom": a}, e))
         return
-    if isinstance(e, sp.Basic):
-        for a in e.args:
-            walk_chains(a, out)
+    if isinstance(e, (Mapping, SymbolicWeightedVolume, SymbolicDeterminant)):
+        if others is not None:
+            others.append(("geo", e))
+        return
+    if type(e) is sp.Indexed:
+        if others is not None:
+            others.append(("pidx", e))
+        return
+    if type(e) is sp.Symbol:
+        if others is not None:
+            others.append(("sym", e))
+        return
+    if isinstance(e, (sp.IndexedBase, sp.Idx)):
+        return
+    if isinstance(e, PullBack):
+        # what is translated is its .expr (over the function of the logical domain), not its argument
+        walk_chains(e.expr, out, others)
+    for a in e.args:
+        walk_chains(a, out, others)
 
 
 def walk_vecs(e, out):
     """bare VectorFunctions (not the base of a component)"""
     import sympy as sp
     from sympde.topology.space import VectorFunction, IndexedVectorFunction
+    from sympde.topology.mapping import PullBack
     if isinstance(e, (list, tuple)):
         for a in e:
             walk_vecs(a, out)
@@ -208,36 +397,88 @@ def walk_vecs(e, out):
     elif isinstance(e, IndexedVectorFunction):
         return
     elif isinstance(e, sp.Basic):
+        if isinstance(e, PullBack):
+            walk_vecs(e.expr, out)
         for a in e.args:
             walk_vecs(a, out)
 
 
-def generic_subst(k, sigma):
-    """the homomorphic extension of `sigma`, by sympy's own substitution machinery"""
+def generic_subst(k, sigma, bad):
+    """the homomorphic extension of `sigma` (named atom -> its own symbol): own recursion over the sympy tree.
+    Interface operators and pull-backs are transparent (their argument / their .expr is what is translated);
+    an object that is neither named, nor a number / symbol, nor a compound sympy expression has no translation:
+    the exception it must cause is recorded in `bad` (`sigma[k]` is an exception kind for an atom whose own
+    translation raises)."""
     import sympy as sp
+    from sympde.core import Constant
+    from sympde.topology.mapping import PullBack
+    from sympde.topology.basic import BasicDomain
+    from sympde.calculus.core import MinusInterfaceOperator, PlusInterfaceOperator
     if isinstance(k, (list, tuple)):
-        return sp.Tuple(*[generic_subst(a, sigma) for a in k])
+        return sp.Tuple(*[generic_subst(a, sigma, bad) for a in k])
     if isinstance(k, sp.MatrixBase):
-        return type(k)([[generic_subst(k[i, j], sigma) for j in range(k.shape[1])] for i in range(k.shape[0])])
-    return k.xreplace(sigma)
+        return type(k)([[generic_subst(k[i, j], sigma, bad) for j in range(k.shape[1])] for i in range(k.shape[0])])
+    if isinstance(k, (int, float)) and not isinstance(k, bool):
+        return k
+    if not isinstance(k, sp.Basic):
+        bad.append("NotImplementedError")
+        return sp.Symbol("?")
+    if k in sigma:
+        if isinstance(sigma[k], str):
+            bad.append(sigma[k])
+            return sp.Symbol("?")
+        return sigma[k]
+    if isinstance(k, (MinusInterfaceOperator, PlusInterfaceOperator)):
+        return generic_subst(k.args[0], sigma, bad)
+    if isinstance(k, PullBack):
+        return generic_subst(k.expr, sigma, bad)
+    if isinstance(k, (sp.Number, sp.NumberSymbol, sp.Symbol, Constant, sp.IndexedBase, sp.Idx)) or k is sp.I:
+        return k
+    if isinstance(k, (sp.Add, sp.Mul, sp.Pow, sp.Tuple)) or \
+            (isinstance(k, sp.Function) and type(k).__module__.startswith("sympy.")):
+        return k.func(*[generic_subst(a, sigma, bad) for a in k.args])
+    bad.append("NotImplementedError")
+    return sp.Symbol("?")
 
 
 def residual_terminals(r, out):
-    """terminal expressions (functions, components, derivative operators) still present in a result"""
+    """terminal expressions (functions, components, derivative operators, interface operators, mappings and
+    their components, geometry atoms, pull-backs) still present in a result"""
     import sympy as sp
     from sympde.topology.space import ScalarFunction, VectorFunction, IndexedVectorFunction
     from sympde.topology.derivatives import DifferentialOperator
+    from sympde.topology.mapping import Mapping, SymbolicWeightedVolume, PullBack
+    from sympde.calculus.matrices import SymbolicDeterminant
+    from sympde.calculus.core import MinusInterfaceOperator, PlusInterfaceOperator
     if isinstance(r, (list, tuple)):
         for a in r:
             residual_terminals(a, out)
     elif isinstance(r, sp.MatrixBase):
         for a in r:
             residual_terminals(a, out)
-    elif isinstance(r, (ScalarFunction, VectorFunction, IndexedVectorFunction, DifferentialOperator)):
+    elif isinstance(r, (ScalarFunction, VectorFunction, IndexedVectorFunction, DifferentialOperator,
+                        MinusInterfaceOperator, PlusInterfaceOperator, Mapping, SymbolicWeightedVolume,
+                        SymbolicDeterminant, PullBack)):
         out.append(type(r).__name__)
+    elif type(r) is sp.Indexed:
+        # A[i] / n[0] / M[0]: each is turned into a Symbol
+        out.append("Indexed")
     elif isinstance(r, sp.Basic):
         for a in r.args:
             residual_terminals(a, out)
+
+
+def canon_tree(t):
+    """a tree with the arguments of every Add / Mul sorted (sympy's own order of arguments that compare equal
+    under its sort key depends on the order of construction)"""
+    if isinstance(t, list):
+        return [canon_tree(a) for a in t]
+    if not isinstance(t, dict):
+        return t
+    t = {k: canon_tree(v) for k, v in t.items()}
+    if t.get("k") in ("add", "mul"):
+        t["args"] = sorted(t["args"], key=lambda a: json.dumps(a, sort_keys=True))
+    return t
 
 
 def safe_tree(e):
@@ -289,15 +530,17 @@ def run_case(case):
         return {"degenerate": True}
     out = {"kernel": tree(k)}
 
-    # every chain occurring in the kernel (own traversal), its symbol, and the type of the result
-    chains = []
-    walk_chains(k, chains)
+    # every chain occurring in the kernel (own traversal), its symbol, and the type of the result; the other
+    # objects that are given a name (geometry atoms, plain Indexed) or are passed through as a Symbol
+    chains, others = [], []
+    walk_chains(k, chains, others)
 
     def symname(e):
         r = SymbolicExpr(e)
         return {"name": str(r.name) if isinstance(r, sp.Symbol) else None, "type": type(r).__name__,
                 "plain": type(r) is sp.Symbol}
     out["true_chains"] = [dict(d, res=guarded(lambda e=e: symname(e))) for d, e in chains]
+    out["true_atoms"] = [{"node": tree(e), "res": guarded(lambda e=e: symname(e))} for _, e in others]
     names = []
     for spec in case.get("name_chains", []):
         e = ctx.build(spec)
@@ -306,21 +549,33 @@ def run_case(case):
 
     out["symbolic"] = guarded(lambda: tree(SymbolicExpr(k)))
 
-    # oracle of the homomorphism: SymbolicExpr(k) must be the generic substitution chain -> its own symbol
+    # oracle of the homomorphism: SymbolicExpr(k) must be the generic substitution named atom -> its own symbol,
+    # and must raise exactly when some object in k has no translation
     def subst_check():
         sigma = {}
-        for d, e in chains:
-            r = SymbolicExpr(e)
-            sigma[e] = r
+        for _, e in chains + others:
+            try:
+                sigma[e] = SymbolicExpr(e)
+            except Exception as ex:  # noqa
+                sigma[e] = errkind(ex)
         vecs = []
         walk_vecs(k, vecs)
         for v in vecs:
             sigma[v] = sp.Symbol(str(v.name))
-        want = generic_subst(k, sigma)
-        got = SymbolicExpr(k)
+        bad = []
+        want = generic_subst(k, sigma, bad)
+        try:
+            got, got_err = SymbolicExpr(k), None
+        except Exception as ex:  # noqa
+            got, got_err = None, errkind(ex)
+        if bad or got_err:
+            return {"want_raise": sorted(set(bad)), "got_raise": got_err}
         res = []
         residual_terminals(got, res)
         eq = bool(got == want)
+        if not eq:
+            tg, tw = safe_tree(got), safe_tree(want)
+            eq = "unsupported" not in tg and canon_tree(tg) == canon_tree(tw)
         # (no str() of whole expressions here: printing an Add that contains a sympde Constant, which claims
         #  is_number, sends sympy into evalf and can take minutes)
         return {"equal": eq, "residual": sorted(set(res)),
@@ -330,25 +585,34 @@ def run_case(case):
     out["max_phys"] = guarded(lambda: dict3(get_max_partial_derivatives(k), PH))
     out["max_log"] = guarded(lambda: dict3(get_max_logical_partial_derivatives(k), LG))
     per = []
+    qall = []
     for f in case["funcs"]:
         if f["vector"]:
             F = ctx.funcs[(f["name"], True)]
-            qs = [({"t": "v", "name": f["name"]}, F)] + \
-                 [({"t": "c", "name": f["name"], "i": i}, F[i]) for i in range(ctx.dim)]
+            qall += [({"t": "v", "name": f["name"]}, F)] + \
+                    [({"t": "c", "name": f["name"], "i": i}, F[i]) for i in range(ctx.dim)]
         else:
-            qs = [({"t": "s", "name": f["name"]}, ctx.funcs[(f["name"], False)])]
-        for q, F in qs:
-            per.append({"q": q,
-                        "max_phys": guarded(lambda F=F: dict3(get_max_partial_derivatives(k, F), PH)),
-                        "max_log": guarded(lambda F=F: dict3(get_max_logical_partial_derivatives(k, F), LG)),
-                        "idx_phys": guarded(lambda F=F: [dict3(d, PH) for d in get_index_derivatives_atom(k, F)]),
-                        "idx_log": guarded(lambda F=F: [dict3(d, LG) for d in get_index_logical_derivatives_atom(k, F)])})
+            qall += [({"t": "s", "name": f["name"]}, ctx.funcs[(f["name"], False)])]
+    # the atoms restricted to a side of an interface that occur in the kernel are queried too
+    seen = set()
+    for d, _ in chains:
+        if d["atom"]["t"] == "side":
+            key = json.dumps(d["atom"], sort_keys=True)
+            if key not in seen and len(seen) < 3:
+                seen.add(key)
+                qall.append((d["atom"], ctx.atom(d["atom"])))
+    for q, F in qall:
+        per.append({"q": q,
+                    "max_phys": guarded(lambda F=F: dict3(get_max_partial_derivatives(k, F), PH)),
+                    "max_log": guarded(lambda F=F: dict3(get_max_logical_partial_derivatives(k, F), LG)),
+                    "idx_phys": guarded(lambda F=F: [dict3(d, PH) for d in get_index_derivatives_atom(k, F)]),
+                    "idx_log": guarded(lambda F=F: [dict3(d, LG) for d in get_index_logical_derivatives_atom(k, F)])})
     out["per"] = per
     return out
 
 
 def source_variant():
-    """Which of the three modelled repairs are present in the SOURCE TEXT of the functions under study
+    """Which of the four modelled repairs are present in the SOURCE TEXT of the functions under study
     (True / False / None = shape not recognised).  Selects the model variant; the correspondence run then ties
     the selected variant to the behaviour, so a wrong reading shows up as a disagreement."""
     import inspect
@@ -375,6 +639,13 @@ def source_variant():
     out["ea"] = True if all(new) else False if not any(new) else None
     s1, s2 = src(D.get_index_derivatives_atom), src(D.get_index_logical_derivatives_atom)
     helper = src(getattr(D, "_is_atom_of", None)) if hasattr(D, "_is_atom_of") else ""
+    # sq: _is_atom_of looks through the interface operators around the innermost argument (proposed repair)
+    if "isinstance(a, (minus, plus))" in helper and "a = a.args[0]" in helper:
+        out["sq"] = True
+    elif "minus" not in helper and "plus" not in helper and "InterfaceOperator" not in helper:
+        out["sq"] = False
+    else:
+        out["sq"] = None
     if "_is_atom_of(a, atom)" in s1 and "_is_atom_of(a, atom)" in s2 and "a.base == atom" in helper:
         out["vq"] = True
     elif "if a == atom" in s1 and "if a == atom" in s2:
@@ -397,7 +668,7 @@ def main():
     try:
         variant = source_variant()
     except Exception:  # noqa
-        variant = {"pe": None, "ea": None, "vq": None, "error": traceback.format_exc()[-500:]}
+        variant = {"pe": None, "ea": None, "vq": None, "sq": None, "error": traceback.format_exc()[-500:]}
     json.dump({"results": res, "variant": variant}, open(sys.argv[2], "w"))
 
 
